@@ -13,13 +13,15 @@ import numpy as np
 from vlib.common import Result, run_driver, build_driver
 
 PID = "C14"
-LEAN_MODULES = ["BemppVerif.Props.C14"]
+LEAN_MODULES = ["BemppVerif.Props.C14", "BemppVerif.Props.C15Blocked"]
 N = "BemppVerif.C14."
 THEOREMS = [N + t for t in [
     "eval_type", "check_iff_run", "illtyped_rejected", "welltyped_accepted", "eval_sound", "run_sound",
     "to_dense_matvec_agree", "product_is_weak_invmass_weak", "apply_gives_projections", "linearity",
     "real_on_complex_by_parts", "blocked_apply_slices", "pot_apply_linear",
-]]
+]] + ["BemppVerif.C15." + t for t in ["blocked_matvec_eq_dense", "blocked_matmat_eq_dense",
+                                      "blocked_matmat_is_columnwise_matvec", "generalized_matmat_eq_dense",
+                                      "blocked_ctor_dims_sound"]]
 PARTIAL = {}
 TRUSTED = [
     "hand model lean/BemppVerif/Model/Alg.lean of the operator algebra (class dispatch, laziness as carried weak-form "
@@ -37,7 +39,8 @@ ASSUMPTIONS = [
     "out of the modelled language (harness and model both answer `out-of-scope`): NumPy arrays as operands, NumPy scalars "
     "combined with Python lists, integer/bool scalars, lists containing anything but grid functions, 0-sized block arrays, "
     "NumPy broadcasting of 1-dof spaces, lists as long as a dof count, single-precision NumPy scalars",
-    "not modelled: GeneralizedBlockedOperator, MultitraceOperatorFromAssembler, ZeroBoundaryOperator.__iadd__/__isub__, "
+    "GeneralizedDiscreteBlockedOperator / BlockedDiscreteOperator products are modelled in Model/Blocked.lean (exact "
+    "correspondence props/c15_blocked.py); not modelled in the algebra language: GeneralizedBlockedOperator, MultitraceOperatorFromAssembler, ZeroBoundaryOperator.__iadd__/__isub__, "
     "MultiplicationOperator, DiagonalOperator, DiscreteRankOneOperator, GenericDiscreteBoundaryOperator (FMM), single "
     "precision dtypes (all leaves are float64 / complex128), potential operators with more than one component",
     "tolerance 1e-10 relative to the magnitude bound of the expression (float64 vs exact rational arithmetic)",
@@ -1138,6 +1141,12 @@ def correspondence(ctx):
     res.stats["corr_programs"] = len(progs)
     res.stats["corr_spec_vs_api"] = {f"{a}/{b}": c for (a, b), c in sorted(hist.items())}
     res.stats["corr_request_bytes"] = len(line)
+    # application of the discrete blocked operators (Model/Blocked.lean; theorems in Props/C15Blocked.lean), exact comparison
+    from props import c15_blocked
+    try:
+        c15_blocked.run(ctx, res)
+    except Exception as exc:  # noqa: BLE001
+        res.disagree("blocked-operator correspondence raised", error=repr(exc)[:300])
     return res
 
 
